@@ -7,6 +7,11 @@
 //! `tokio::time::Instant` and an in-memory WebSocket that records every `Ping` with its time in ms
 //! and answers with `Pong` after scripted delays.
 //!
+//! All times are u64 milliseconds since the task started (`Nat` in the model). The long-uptime family
+//! (keepalive intervals of minutes to days, a peer that answers for weeks or months of model time and
+//! then falls silent, or never does) exercises uptimes below, around and above 2^31 / 2^32 ms: under the
+//! paused clock a run costs one timer step per tick, whatever the length of the interval.
+//!
 //! Non-trivial case: a builder sequence with at least two keepalive setter calls, or a run with
 //! keepalive enabled in which at least two ticks fall inside the horizon.
 
